@@ -34,6 +34,9 @@ type instructionType struct {
 	// immediate describes an immediate value encoding format in an
 	// instruction.
 	immediate immType
+	// uimm marks that the rs1 field doesn't identify a register, but it
+	// encodes a 5 bit unsigned immediate (CSR instructions with immediate).
+	uimm bool
 
 	// instrType is set of instruction types of an opcode.
 	instrType model.Type
